@@ -74,6 +74,7 @@ type Config struct {
 	HotProb    int64
 	StallTask  int32 // -1 none: task excluded from choices for StallFor decisions after its first pre-emption
 	StallFor   int
+	StallSkip  int     // a stalled task is only frozen at its (StallSkip+1)-th pre-emption: the freeze point moves from "somewhere in the first call" to the first few hot sites it visits
 	StallSet   []int32 // further tasks treated like StallTask (several callers frozen at their first pre-emption)
 	LowPrio    int32   // -1 none: task only chosen when nothing else is runnable
 	Faults     []Fault
@@ -130,6 +131,8 @@ type state struct {
 
 	done      [MaxTasks]bool
 	preempted [MaxTasks]bool
+	npre      [MaxTasks]int64
+	quiet     [MaxTasks]bool // the task is inside discarded repetitions: no hot-site pre-emption (see SetQuiet)
 	tyields   [MaxTasks]int64
 	rfd       [MaxTasks]int32
 	wfd       [MaxTasks]int32
@@ -231,6 +234,19 @@ func BaseSites() []uint32 {
 	return out
 }
 
+// SetQuiet marks the running task as being inside discarded repetitions of a
+// long-lived caller (or not). Hot-site pre-emption has an allowance of 4 000 switches
+// per run; spent on thousands of discarded calls it is gone before the calls whose
+// results are compared are reached. Ordinary pre-emptions (the run's K points) and the
+// rare-site rule are not affected, so discarded calls still interleave with the rest.
+//
+//go:norace
+func SetQuiet(on bool) {
+	if st.active && !st.free {
+		st.quiet[st.cur] = on
+	}
+}
+
 // SetCounting switches baseline yield counting on or off (simulation inactive).
 //
 //go:norace
@@ -328,7 +344,7 @@ func Yield(site uint32) {
 			return
 		}
 	}
-	if st.cfg.HotOnly && !st.cfg.ReplayMode && st.nopre == 0 && int(site) < len(st.cfg.SiteFlags) &&
+	if st.cfg.HotOnly && !st.quiet[me] && !st.cfg.ReplayMode && st.nopre == 0 && int(site) < len(st.cfg.SiteFlags) &&
 		st.cfg.SiteFlags[site]&FlagHot != 0 && st.switches < 4000 && rnd(100) < st.cfg.HotProb {
 		// extra pre-emption right before a statement that touches hidden shared state
 		st.budget--
@@ -628,7 +644,8 @@ func switchOut(site uint32, blocked bool) {
 		return
 	}
 	record(me, st.ran, site)
-	st.preempted[me] = true
+	st.npre[me]++
+	st.preempted[me] = st.npre[me] > int64(st.cfg.StallSkip)
 	st.ran = 0
 	st.switches++
 	if int(site) < len(st.sitePre) {
@@ -722,6 +739,8 @@ func begin(cfg *Config, n int) error {
 	for i := 0; i < MaxTasks; i++ {
 		st.done[i] = i >= n
 		st.preempted[i] = false
+		st.npre[i] = 0
+		st.quiet[i] = false
 		st.tyields[i] = 0
 		st.lockDepth[i] = 0
 		st.opLimit[i] = 0
